@@ -57,6 +57,7 @@ def dispatch (op : String) (args impl : List String) : Verdict :=
   | "polymk" => opPolymk args impl
   | "poly" => opPoly args impl
   | "stats" => opStats args impl
+  | "statsseq" => opStatsSeq args impl
   | "traj" => opTraj args impl
   | "yawq" => opYawq args impl
   | "facc" => opFacc args impl
